@@ -23,15 +23,19 @@ import random
 import shutil
 import subprocess
 
+from concurrent.futures import ThreadPoolExecutor
+
 from .. import tlc, tracecheck
 from ..core import Machinery
 from ..rigs import fwd_rig as R
 
 WORKERS = 8
 MAXHOPS = 2
-DEVS    = ['DevKeepFwd', 'DevL2PAnyOrigin', 'DevL2PIgnoreFwd', 'DevP2LNoSelfDrop']
+DEVS    = ['DevKeepFwd', 'DevL2PAnyOrigin', 'DevL2PIgnoreFwd', 'DevP2LNoSelfDrop',
+           'DevResultCopiesFwd']
 STRUCT  = ['TypeOK', 'InvCleared', 'InvHopsWhere']
-PROPINV = ['InvAtMostOnce', 'InvStaysLocal', 'InvSettled', 'InvHops']
+PROPINV = ['InvAtMostOnce', 'InvStaysLocal', 'InvSettled', 'InvHops', 'InvRpcReturns',
+           'InvRpcServedOnce']
 UNKNOWN = 'nobody'                       # origin marker naming no connected side
 FWDVALS = ('true', 'false', 'absent')
 MONITOR_CONSTANTS = 'MaxHops = %d' % MAXHOPS
@@ -39,13 +43,13 @@ MONITOR_CONSTANTS = 'MaxHops = %d' % MAXHOPS
 
 # ------------------------------------------------------------------------------
 def mc_cfg(npilots, nmsgs, devs=(), invs=None, props=(), fair=False, fwdchoice=FWDVALS,
-           sym=False, eager=False):
+           sym=False, eager=False, nrpc=0):
     '''sym: pilots are model values and a symmetry set (safety runs only)'''
     assert not (sym and (fair or props))
     c  = 'CONSTANTS\n'
     c += ' Pilots = {%s}\n' % ', '.join(('p%d' if sym else '"p%d"') % (i + 1) for i in range(npilots))
     c += ' Unknown = {"%s"}\n NMsgs = %d\n MaxHops = %d\n' % (UNKNOWN, nmsgs, MAXHOPS)
-    c += ' EagerApp = %s\n' % ('TRUE' if eager else 'FALSE')
+    c += ' EagerApp = %s\n NRpc = %d\n' % ('TRUE' if eager else 'FALSE', nrpc)
     c += ' FwdChoice = {%s}\n' % ', '.join('"%s"' % f for f in fwdchoice)
     for d in DEVS:
         c += ' %s = %s\n' % (d, 'TRUE' if d in devs else 'FALSE')
@@ -115,11 +119,16 @@ def got_table(rig, like):
 
 def run_script(npilots, chan, script):
     '''replay one TLC behaviour on the real forwarders; returns (rig, notes, final_ok)'''
-    rig, notes = R.FwdRig(npilots), []
+    with_rpc   = any(st['act'] == 'PublishReq' for st in script)
+    rig, notes = R.FwdRig(npilots, with_rpc=with_rpc), []
+    if with_rpc:
+        chan = 'control'
     for n, st in enumerate(script):
         act, a = st['act'], st['args']
         link = None
-        if act == 'Publish':
+        if act == 'PublishReq':
+            rig.publish_req(side_name(a[0]), side_name(a[1]))
+        elif act == 'Publish':
             o = side_name(a[1])
             rig.publish(side_name(a[0]), chan, origin=rig.ident.get(o, o), fwd=a[2])
         else:
@@ -211,6 +220,153 @@ def run_random(npilots, nmsgs, seed):
     return rig
 
 
+def run_rpc(npilots, seed):
+    '''RPC round trips between every pair of sides: real Pilot.rpc (client ->
+       pilot), real BaseComponent.rpc (other pairs) and bare requests with
+       random delivery orders; served by the real _control_cb / _handle_rpc_msg'''
+    rng = random.Random(seed)
+    rig = R.FwdRig(npilots, with_rpc=True)
+    for s in rig.sides[1:]:
+        if rng.random() < 0.7:
+            rig.add_pilot_handle(s)
+    pairs = [(a, b) for a in rig.sides for b in rig.sides]
+    rng.shuffle(pairs)
+    for a, b in pairs:
+        r = rng.random()
+        if r < 0.45:
+            rig.rpc_call(a, b, rng)
+        else:
+            rig.publish_req(a, b)
+            if r < 0.7:
+                rig.publish(rng.choice(rig.sides), 'control', origin='absent',
+                            fwd=rng.choice(FWDVALS))
+            for _ in range(rng.randint(0, 8)):
+                ls = rig.links()
+                if ls:
+                    rig.deliver(rng.choice(ls))
+    rig.quiet(rig.drain(rng))
+    return rig
+
+
+# ------------------------------------------------------------------------------
+# proxy service
+PX_DEVS = ['DevMonitorReapsAll', 'DevHeartbeatAll', 'DevUnregisterAll']
+PX_INVS = ['TypeOK', 'InvLiveRegistered', 'InvDelivers', 'InvUpIffReg']
+PX_ACTS = ['ActIsolation', 'ActMonitorExact']
+PX_TIMEOUT = 2
+
+
+def px_cfg(nsess, maxt=4, maxops=8, devs=(), invs=None, props=None):
+    c  = 'CONSTANTS\n Sessions = {%s}\n' % ', '.join('"s%d"' % (i + 1) for i in range(nsess))
+    c += ' Timeout = %d\n MaxT = %d\n MaxOps = %d\n' % (PX_TIMEOUT, maxt, maxops)
+    for d in PX_DEVS:
+        c += ' %s = %s\n' % (d, 'TRUE' if d in devs else 'FALSE')
+    c += 'SPECIFICATION Spec\nCHECK_DEADLOCK FALSE\n'
+    for i in (PX_INVS if invs is None else invs):
+        c += 'INVARIANT %s\n' % i
+    for q in (PX_ACTS if props is None else props):
+        c += 'PROPERTY %s\n' % q
+    return {'PX.cfg': c}
+
+
+def px_ops_from_steps(steps):
+    ops = []
+    for act, args, _ in steps:
+        if act == 'Init':
+            continue
+        a = re.findall(r'"([^"]*)"', args or '')
+        ops.append([act, a[0] if a else 'none'])
+    return ops
+
+
+def px_random_ops(rng, sessions, n):
+    ops = []
+    for _ in range(n):
+        r = rng.random()
+        s = rng.choice(sessions)
+        if   r < 0.18: ops.append(['Register', s])
+        elif r < 0.26: ops.append(['Unregister', s])
+        elif r < 0.44: ops.append(['Heartbeat', s])
+        elif r < 0.52: ops.append(['Lookup', s])
+        elif r < 0.70: ops.append(['Tick', 'none'])
+        elif r < 0.82: ops.append(['Monitor', 'none'])
+        else         : ops.append(['Send', s])
+    return ops
+
+
+def run_proxy(sessions, npilots, ops, with_rpc=False, seed=0):
+    '''drive the real Proxy request handlers / monitor pass; Send only for the
+       sessions the property calls live (registered by their client, not
+       unregistered, not past the timeout at a monitor pass - own bookkeeping)'''
+    rng = random.Random(seed)
+    pr  = R.ProxyRig(sessions, npilots=npilots, timeout_ticks=PX_TIMEOUT, with_rpc=with_rpc)
+    wanted, ghb = set(), {}
+    for op, sid in ops:
+        if op == 'Register':
+            if pr.register(sid)['ok']:
+                wanted.add(sid)
+                ghb[sid] = pr.now
+        elif op == 'Unregister':
+            pr.unregister(sid)
+            wanted.discard(sid)
+        elif op == 'Heartbeat':
+            known = sid in pr.proxy._clients
+            pr.heartbeat(sid)
+            if known:
+                ghb[sid] = pr.now
+        elif op == 'Lookup':
+            pr.lookup(sid)
+        elif op == 'Tick':
+            pr.tick_()
+        elif op == 'Monitor':
+            pr.monitor()
+            wanted -= {s for s in wanted if pr.now > ghb[s] + PX_TIMEOUT}
+        elif op == 'Send':
+            if sid in wanted:
+                pr.send(sid, rng)
+        else:
+            raise Machinery('unknown proxy action %s' % op)
+    # at the end every live session talks once more
+    for sid in sorted(wanted):
+        pr.send(sid, rng)
+    return pr
+
+
+def check_proxy(chk, runs):
+    '''runs: list of (ProxyRig, input); the service traces go to ProxySvcTrace, the
+       forwarding traces of the hosted sessions are returned for ForwardTrace'''
+    fwd, ptraces = [], []
+    for pr, inp in runs:
+        pt, fts = pr.traces()
+        ptraces.append(pt)
+        for sid, n, tr in fts:
+            fwd.append((tr, dict(inp, session=sid, incarnation=n)))
+    if not ptraces:
+        return fwd
+    res, st = tracecheck.validate('Forward', 'ProxySvcTrace', MONITOR_CONSTANTS, ptraces,
+                                  max_batch=1500)
+    chk.states      += st['states']
+    chk.transitions += st['transitions']
+    chk.cmds.append(st['cmd'])
+    div = {}
+    for (pr, inp), pt, errs in zip(runs, ptraces, res):
+        chk.traces += 1
+        if any(e['op'] == 'Monitor' and any(x['reg'] for x in e['st']) and
+               not all(x['reg'] == y['reg'] for x, y in zip(e['st'], p['st']))
+               for p, e in zip(pt['events'], pt['events'][1:])):
+            chk.nontrivial.add(('proxy-reap-some', len(pt['sessions'])))
+        for err in errs:
+            if err.split('.')[0] != chk.pid:
+                div[err] = div.get(err, 0) + 1
+                continue
+            chk.violation(err, 'proxy service shared by %d sessions' % len(pt['sessions']),
+                          'real Proxy request handlers / monitor pass violate %s' % err,
+                          {'rig': 'forward', 'input': inp, 'errs': errs, 'trace': pt})
+    for k, n in sorted(div.items()):
+        chk.notes.append('proxy service step differs from the design model (%s) in %d traces' % (k, n))
+    return fwd
+
+
 # ------------------------------------------------------------------------------
 APALACHE = [('base',      ['--init=Init',    '--inv=IndInv',   '--length=0']),
             ('step',      ['--init=IndInit', '--inv=IndInv',   '--length=1']),
@@ -275,6 +431,8 @@ def offending(trace):
 def classify(trace):
     if len(set(trace.get('idents', trace['sides']))) < len(trace['sides']):
         return 'side identities not distinct'
+    if any(e['ev'] == 'Publish' and e.get('re') for e in trace['events']) and not offending(trace):
+        return 'rpc result'
     off = offending(trace)
     if not off:
         return 'any message'
@@ -312,7 +470,9 @@ def check_traces(chk, items):
             if err.split('.')[0] != chk.pid:
                 model_div[err] = model_div.get(err, 0) + 1
                 continue
-            chk.violation(err, classify(tr),
+            cls = 'session hosted by a shared proxy service' if inp.get('kind') == 'proxy' \
+                  else classify(tr)
+            chk.violation(err, cls,
                           'real crosswire_pubsub forwarders on the fabric violate %s' % err,
                           {'rig': 'forward', 'input': inp, 'errs': errs, 'trace': tr})
     for k, n in sorted(model_div.items()):
@@ -325,34 +485,45 @@ def run(chk, tier, seed):
     rng   = random.Random(seed * 7919 + 16)
 
     # ---- 1. design model, exhaustive -----------------------------------------
-    # (pilots, messages, symmetry, eager): runs without symmetry also check liveness;
-    # eager = the sound reduction EagerApp of the model (quick tier: larger instances)
-    plan = [(1, 2, False, False), (2, 1, False, False), (2, 2, True, True), (3, 2, True, True)]
+    # runs without symmetry also check liveness; eager = the sound reduction EagerApp
+    # of the model (quick tier: larger instances); nrpc = RPC round trips; fc = flag
+    # values of plain publishes (() = RPC traffic only)
+    P = lambda np_, nm, **k: dict(dict(np=np_, nm=nm, sym=False, eager=False, nrpc=0, fc=FWDVALS,
+                                       fair=None), **k)
+    plan = [P(1, 2, nrpc=1), P(2, 2, nrpc=1, fc=(), sym=True), P(3, 2, sym=True, eager=True)]
     if not quick:
-        plan += [(3, 1, False, False), (2, 2, True, False), (2, 2, False, False),
-                 (1, 3, False, False)]
-    for np_, nm, sym, eager in plan:
-        big  = (np_, nm) == (3, 2) and not eager
-        fair = not sym and (np_, nm) != (1, 3)
-        try:
-            res = tlc.run('Forward', 'Forward', 'MC.cfg', workers=WORKERS,
-                          timeout=330 if big else 1500,
-                          extra_files=mc_cfg(np_, nm, sym=sym, fair=fair, eager=eager,
-                                             props=['Termination', 'AllSettledAtRest'] if fair else ()))
-        except tlc.TLCError as e:
-            if big and 'timeout' in str(e):
-                # the largest instance is a bonus: on a loaded machine it may not fit
-                chk.notes.append('exhaustive run with 3 pilots, 2 messages not finished in 330 s (skipped)')
-                continue
-            raise
-        chk.add_tlc(res, 'exhaustive%s:%dpilots-%dmsgs%s%s' % ('+liveness' if fair else '', np_, nm,
-                                                               '-sym' if sym else '',
-                                                               '-eager' if eager else ''))
-        if not res.ok:
-            raise Machinery('design model Forward violates %s with %d pilots, %d messages '
-                            '(intended design must hold; temporal = some behaviour never comes '
-                            'to rest):\n%s' % (res.violated, np_, nm, res.trace[:3000]))
-    chk.exhaustive = True
+        plan += [P(2, 2, sym=True, eager=True), P(2, 1), P(3, 1), P(2, 2, sym=True), P(2, 2),
+                 P(1, 3, fair=False),
+                 P(2, 2, nrpc=1, fair=False), P(1, 4, nrpc=2, fc=())]
+    # the exhaustive runs do not depend on the code under test: they run in the
+    # background while the rig is driven, and are collected before the verdict
+    pool, futs = ThreadPoolExecutor(max_workers=4 if quick else 3), []
+    for c in plan:
+        fair = (not c['sym']) if c['fair'] is None else c['fair']
+        label = 'exhaustive%s:%dpilots-%dmsgs%s%s%s%s' % (
+            '+liveness' if fair else '', c['np'], c['nm'], '-sym' if c['sym'] else '',
+            '-eager' if c['eager'] else '', '-rpc%d' % c['nrpc'] if c['nrpc'] else '',
+            '-rpconly' if not c['fc'] else '')
+        futs.append((label, 'Forward', pool.submit(
+            tlc.run, 'Forward', 'Forward', 'MC.cfg', workers=4 if quick else WORKERS, timeout=1500,
+            extra_files=mc_cfg(c['np'], c['nm'], sym=c['sym'], fair=fair, eager=c['eager'],
+                               nrpc=c['nrpc'], fwdchoice=c['fc'],
+                               props=['Termination', 'AllSettledAtRest'] if fair else ()))))
+    # the proxy service hosting the proxy pubsubs of several sessions
+    for ns, maxt, maxops in ([(2, 4, 9)] if quick else [(2, 4, 9), (3, 4, 9)]):
+        futs.append(('exhaustive:proxy-%dsessions' % ns, 'ProxySvc', pool.submit(
+            tlc.run, 'Forward', 'ProxySvc', 'PX.cfg', workers=4 if quick else WORKERS, timeout=900,
+            extra_files=px_cfg(ns, maxt, maxops))))
+
+    def collect_models():
+        for label, module, fut in futs:
+            res = fut.result()
+            chk.add_tlc(res, label)
+            if not res.ok:
+                raise Machinery('design model %s violates %s (%s) (intended design must hold; '
+                                'temporal = some behaviour never comes to rest):\n%s'
+                                % (module, res.violated, label, res.trace[:3000]))
+        pool.shutdown()
 
     # ---- 2. deviation sensitivity ------------------------------------------------
     if not quick:
@@ -361,10 +532,14 @@ def run(chk, tier, seed):
                   (['DevL2PAnyOrigin'],  ['InvAtMostOnce'], 'InvAtMostOnce'),
                   (['DevKeepFwd', 'DevL2PAnyOrigin'], ['InvHops'], 'InvHops'),
                   (['DevKeepFwd'], STRUCT, 'InvCleared'),
-                  (['DevKeepFwd'], PROPINV, None)]
+                  (['DevKeepFwd'], PROPINV, None),
+                  (['DevResultCopiesFwd'], PROPINV, 'InvRpcReturns')]
         for devs, invs, want in expect:
+            rpcdev = 'DevResultCopiesFwd' in devs
             res = tlc.run('Forward', 'Forward', 'MC.cfg', workers=WORKERS, timeout=600,
-                          extra_files=mc_cfg(2, 1, devs=devs, invs=invs))
+                          extra_files=mc_cfg(2, 2 if rpcdev else 1, devs=devs, invs=invs,
+                                             nrpc=1 if rpcdev else 0,
+                                             fwdchoice=() if rpcdev else FWDVALS))
             chk.add_tlc(res, 'deviation:' + '+'.join(devs))
             if res.violated != want:
                 raise Machinery('deviation %s: expected %s, TLC reports %s'
@@ -375,24 +550,38 @@ def run(chk, tier, seed):
                 chk.notes.append('deviation %s alone keeps the property (the origin check of '
                                  'L2P makes the cleared flag redundant)' % '+'.join(devs))
 
+        for dev, want, kind in [('DevMonitorReapsAll', 'InvLiveRegistered', 'invariant'),
+                                ('DevUnregisterAll',   'InvLiveRegistered', 'invariant'),
+                                ('DevHeartbeatAll',    'ActIsolation',      'action')]:
+            res = tlc.run('Forward', 'ProxySvc', 'PX.cfg', workers=WORKERS, timeout=600,
+                          extra_files=px_cfg(2, 4, 8, devs=[dev],
+                                             invs=[want] if kind == 'invariant' else [],
+                                             props=[want] if kind == 'action' else []))
+            chk.add_tlc(res, 'deviation:' + dev)
+            if res.violated != want:
+                raise Machinery('deviation %s: expected %s, TLC reports %s' % (dev, want, res.violated))
+            chk.notes.append('deviation %s breaks %s in the design model' % (dev, want))
+
         apalache_inductive(chk)
 
     items = []
 
     # ---- 3. TLC behaviours -> real forwarders, step by step -------------------------
     nsim = 60 if quick else 300
-    sims = [(1, 3, FWDVALS), (2, 3, ('true',)), (3, 2, ('true',))]
+    # (pilots, messages, flag choice, rpc round trips)
+    sims = [(2, 4, ('true', 'false'), 1), (3, 2, ('true',), 0)]
     if not quick:
-        sims += [(1, 3, ('true',)), (2, 2, ('true',)), (2, 3, FWDVALS), (3, 3, ('true', 'false')),
-                 (2, 4, ('true',)), (3, 2, FWDVALS)]
+        sims += [(1, 3, FWDVALS, 0), (1, 3, ('true',), 0), (2, 2, ('true',), 0), (2, 3, FWDVALS, 0),
+                 (3, 3, ('true', 'false'), 1), (2, 4, ('true',), 0), (3, 2, FWDVALS, 0),
+                 (3, 4, (), 2)]
     divergences, finals = 0, 0
-    for k, (np_, nm, fc) in enumerate(sims):
+    for k, (np_, nm, fc, nrpc) in enumerate(sims):
         dump = tlc.scratch('rpsim_')
         try:
             res = tlc.run('Forward', 'Forward', 'MC.cfg', workers=1, timeout=600,
                           simulate='num=%d' % nsim, depth=200, seed=rng.randrange(10 ** 6),
                           dump_dir=dump,
-                          extra_files=mc_cfg(np_, nm, invs=['TypeOK'], fwdchoice=fc))
+                          extra_files=mc_cfg(np_, nm, invs=['TypeOK'], fwdchoice=fc, nrpc=nrpc))
             chk.add_tlc(res, 'simulate:%dpilots-%dmsgs' % (np_, nm))
             for j, f in enumerate(sorted(glob.glob(os.path.join(dump, 'tr_*')))):
                 script = script_from_steps(tlc.parse_sim_file(f))
@@ -462,8 +651,42 @@ def run(chk, tier, seed):
             rig = run_close(np_, groups, sd)
             items.append((rig.trace(), {'kind': 'close', 'npilots': np_, 'groups': groups, 'seed': sd}))
 
-    # ---- 7. the monitor decides -----------------------------------------------------------
+    # ---- 7. RPC round trips: request on one side, result published on another --------------
+    for i in range(12 if quick else 200):
+        np_, sd = rng.choice([1, 2, 2, 3]), rng.randrange(10 ** 9)
+        rig = run_rpc(np_, sd)
+        items.append((rig.trace(), {'kind': 'rpc', 'npilots': np_, 'seed': sd}))
+
+    # ---- 8. the proxy service shared by several sessions --------------------------------------
+    pruns = []
+    dump  = tlc.scratch('rpsim_')
+    try:
+        res = tlc.run('Forward', 'ProxySvc', 'PX.cfg', workers=1, timeout=600,
+                      simulate='num=%d' % (40 if quick else 300), depth=40,
+                      seed=rng.randrange(10 ** 6), dump_dir=dump,
+                      extra_files=px_cfg(3, 5, 14, invs=['TypeOK'], props=[]))
+        chk.add_tlc(res, 'simulate:proxy-3sessions')
+        for j, f in enumerate(sorted(glob.glob(os.path.join(dump, 'tr_*')))):
+            ops = px_ops_from_steps(tlc.parse_sim_file(f))
+            inp = {'kind': 'proxy', 'sessions': ['s1', 's2', 's3'], 'npilots': 1 + j % 2,
+                   'ops': ops, 'rpc': j % 3 == 0, 'seed': j}
+            pruns.append((run_proxy(inp['sessions'], inp['npilots'], ops, inp['rpc'], j), inp))
+    finally:
+        shutil.rmtree(dump, ignore_errors=True)
+    for i in range(40 if quick else 600):
+        ns, sd = rng.choice([2, 3, 3, 4]), rng.randrange(10 ** 9)
+        r2  = random.Random(sd)
+        ses = ['s%d' % (k + 1) for k in range(ns)]
+        ops = [['Register', s] for s in ses[:r2.randint(1, ns)]] + px_random_ops(r2, ses, r2.randint(6, 24))
+        inp = {'kind': 'proxy', 'sessions': ses, 'npilots': r2.choice([1, 1, 2]), 'ops': ops,
+               'rpc': r2.random() < 0.3, 'seed': sd}
+        pruns.append((run_proxy(ses, inp['npilots'], ops, inp['rpc'], sd), inp))
+    items += check_proxy(chk, pruns)
+
+    # ---- 9. the monitor decides -----------------------------------------------------------
     check_traces(chk, items)
+    collect_models()
+    chk.exhaustive = True
     chk.evaluations += len(items)
     if items:
         tr = [t for t, i in items if i['kind'] == 'tlc-behaviour'][:1] or [items[0][0]]
@@ -479,6 +702,11 @@ def run(chk, tier, seed):
         'while the client session closes, what it publishes is delivered before close() goes on '
         '(a subscriber stopped by then gets nothing); all pilots are still connected',
         'a subscriber callback runs to completion per message (one listener thread per subscriber)',
+        'proxy service: one monitor pass is one step (the unlocked snapshot of _monitor is not '
+        'interleaved with requests); worker processes are stand-ins whose termination event '
+        'takes the hosted proxy pubsubs down; the clock is virtual (ticks of _TIMEOUT / 2)',
+        'an RPC is served by the component whose handler address equals the addressed side '
+        '(as agent_0 registers its handlers with rpc_addr = pilot id)',
         'messages published with an origin marker naming another side count as already forwarded '
         '(they stay local), as documented in crosswire_pubsub']
 
@@ -502,6 +730,12 @@ def replay(chk, obj):
                           {'rig': 'forward', 'input': inp, 'trace': rig.trace()})
     elif inp['kind'] == 'close':
         rig = run_close(inp['npilots'], inp['groups'], inp['seed'])
+    elif inp['kind'] == 'rpc':
+        rig = run_rpc(inp['npilots'], inp['seed'])
+    elif inp['kind'] == 'proxy':
+        pr = run_proxy(inp['sessions'], inp['npilots'], inp['ops'], inp['rpc'], inp['seed'])
+        check_traces(chk, check_proxy(chk, [(pr, inp)]))
+        return
     elif inp['kind'] == 'enum':
         rig = run_enum(inp['npilots'], inp['side'], inp['chan'], inp['origin'], inp['fwd'],
                        inp['order'])
